@@ -1586,7 +1586,11 @@ ASSUMED_MODELS = [
 ]
 ASSUMPTIONS = ["PY-STR", "PY-EXC", "PY-REC (modular recursion; decreases on subtree size)", "TREE-FINITE",
                "PY-ORDER", "'balanced' = equal numbers of '{' and '}' (DESIGN App. B)"]
-BOUNDED = ["order of the formula lists built at the docx / pptx call sites (display equations first, document order): "
+BOUNDED = ["replay grammar (round 4): every structure nested in every operand slot / matrix cell of every structure, m:subHide / "
+           "m:supHide / m:degHide in every ST_OnOff spelling (an operand hidden by a property that is switched ON may be rendered or "
+           "left out; switched off or absent it must be rendered), containers outside the vocabulary, foreign wrappers, repeated "
+           "equations in one container",
+           "order of the formula lists built at the docx / pptx call sites (display equations first, document order): "
            "native comparison on the container scope of replay/C19.py::site_scope, not proved",
            "run texts emitted exactly once and in source order: checked natively by replay/C19.py on all schema-shaped "
            "trees up to depth 2 / width 2 (small scope), not proved",
